@@ -59,6 +59,19 @@ def close_points(ksweep=(0, 1, 2, 3, 5, 8, 12)):
         for who, t in (('same', 'A'), ('other', 'B')):
             pre = START + RUN_A + [['hold', hook], ['child', 'return'], settle(0.3)]
             add(f'finishing@{hook}', who, pre + [['call', t, 'close'], settle(0.3), ['release_all'], settle(0.3), ['sample']])
+    # finishing, and the completion transition FAILS: a registered plugin raises in one of the hooks of the run's end
+    # (the scenario tests of the repository assert inside hooks).  close() issued while the run is in progress waits for
+    # the run; it must still return, closed; a wait() from a third task must return too
+    for hook in ('on_finished', 'on_end_run'):
+        for who, t in (('same', 'A'), ('other', 'B')):
+            add(f'finishing-fails@{hook}', who, START + [['register_failing', 'F1', hook]] + RUN_A +
+                [['call', t, 'close'], settle(0.3), ['child', 'return'], settle(0.5), ['sample']])
+        # the run was started through run_session(): task A is waiting for its end while B closes
+        add(f'finishing-fails-waiter@{hook}', 'other', START + [['register_failing', 'F1', hook], ['call', 'A', 'run_session'], settle()] +
+            [['call', 'B', 'close'], settle(0.3), ['child', 'return'], settle(0.5), ['sample']])
+        # and close() after such a run has ended
+        add(f'finished-after-failing@{hook}', 'other', START + [['register_failing', 'F1', hook]] + RUN_A +
+            [['child', 'return'], settle(0.5), ['call', 'B', 'close'], settle(0.3), ['sample']])
     # finished
     for who, t in (('same', 'A'), ('other', 'B')):
         add('finished', who, START + one_run() + [['call', t, 'close'], settle(), ['call', t, 'close'], settle(), ['sample']])
@@ -316,6 +329,12 @@ def continuous():
     # run_continue_and_wait accepted
     steps = START + [['call', 'W', 'run_continue_and_wait'], settle(0.4)] + en + [['child', 'return'], ['await', 'W', 25.0], settle()] + en + [['sample']]
     out.append(S(steps, dict(family='continuous', case='wait-variant-accepted'), config={'answer': None}))
+    # the task awaiting run_continue_and_wait() is cancelled (a wait_for timing out, a client going away) while the run it
+    # requested is in progress: the run goes on in the non-interactive mode until it finishes
+    for when in (0.4, 0.05):
+        steps = START + [['call', 'W', 'run_continue_and_wait'], settle(when)] + en + [['cancel_task', 'W'], settle(0.3)] + en + \
+            [['sample'], ['child', 'return'], settle(0.6), ['child_reset']] + en + [['sample']]
+        out.append(S(steps, dict(family='continuous', case=f'waiter-cancelled-mid-run:{when}', expect_complete=False), config={'answer': None}))
     # two requests waiting on the lock at the same time behind a plain run that is starting; both refused
     steps = START + [['hold', 'on_start_run'], ['call', 'A', 'run'], settle(0.3), ['call', 'B', 'run_and_continue'], settle(0.1),
                      ['call', 'C', 'run_and_continue'], settle(0.1), ['release_all'], settle(0.5)] + en + \
